@@ -12,7 +12,9 @@ RULE = ('one result of every kind with a built-in tabular or textual representat
         'Bonferroni, Holm-Bonferroni, metadata, statistics of tasks / tests / tests by labels, failed evaluation), datasets '
         'of shape () to 3-d with bins as edges or centres and a chosen failing pattern (none / one / several / all bins, 1-3 '
         'compared datasets), rendered at all six verbosities with the Table, FullTable and Full representers; every table is '
-        'written as reST, parsed back with docutils, sliced and joined; non-trivial = a failing result or a table; '
+        'written as reST, parsed back with docutils, sliced and joined; with the Table representers the result and a failed '
+        'evaluation of the same test are also formatted by one Rst object (Rst.format_result) in either order and compared '
+        'with what new Rst objects write; non-trivial = a failing result or a table; '
         'distinct = case hash')
 CORRESPONDS = ('Model/Table.lean: render (builders + verbosity dispatch: templates, shown rows, highlight matrix), tabularize / '
                'formatRows / readRow (reST text, character for character), Template.slice / join vs table_repr.py, '
@@ -344,6 +346,22 @@ def run_impl(case, run):
                 else:
                     outs.append(['plot'])
             out['renders'].append(outs)
+        # the report formatter itself (Rst.format_result), reused for a second result of the same test (same fingerprint)
+        # with another outcome: what it writes does not depend on what it wrote before
+        if case['rep'] in ('table', 'fulltable'):
+            from valjean.javert.rst import Rst
+            twin = test.evaluate() if case['kind'] == 'failed' else TestResultFailed(test, 'scripted failure')
+            seq = [twin, res] if case.get('slice', [0, 0])[0] % 2 else [res, twin]
+            out['rst'] = []
+            for verb in range(1, 6):
+                def mk():
+                    return Rst(rep.Representation(representer, verbosity=Verbosity(verb)))
+                shared = mk()
+                reused = ['\n'.join(str(x) for x in shared.format_result(r)) for r in seq]
+                fresh = ['\n'.join(str(x) for x in mk().format_result(r)) for r in seq]
+                out['rst'].append({'verb': verb, 'same': reused == fresh, 'marks': [':hl:`' in t for t in reused],
+                                   'empty': [not t for t in reused], 'verdicts': [bool(r) for r in seq],
+                                   'is_res': [r is res for r in seq]})
         if case['kind'] in ('equal', 'approx', 'student', 'bonf', 'holm') and case['kind'] != 'failed':
             out['values'] = {'ref': [format_val(x) for x in np.asarray(res.test.dsref.value if case['kind'] not in ('bonf', 'holm') else res.first_test_res.test.dsref.value).flatten()]}
             tst = res.test if case['kind'] not in ('bonf', 'holm') else res.first_test_res.test
@@ -453,6 +471,14 @@ def oracle(case, impl, run):
     fails = []
     verdict = impl['verdict']
     run.count('verdict=' + str(verdict))
+    for entry in impl.get('rst', []):
+        if not entry['same']:
+            fails.append(('history_independent', f"verbosity {entry['verb']}: Rst.format_result on an Rst object that formatted another "
+                          'result of the same test before does not write what a new Rst object writes'))
+        for mark, empty, verdict_, is_res in zip(entry['marks'], entry['empty'], entry['verdicts'], entry['is_res']):
+            if not is_res and not empty and mark != (not verdict_):
+                fails.append(('mark_iff_false', f"verbosity {entry['verb']}: Rst.format_result of a failed evaluation / its normal "
+                              f'result: result {verdict_}, mark {mark}'))
     composite = case['kind'] in ('bonf', 'holm') and case['rep'] in ('fulltable', 'full')
     empty_stats = case['kind'] in ('tasks', 'tests') and impl['abstract']['masks'] == [[]]
     for verb in range(1, 6):
